@@ -299,13 +299,14 @@ type fxStreamStats struct{ Packets, Nacks, Bytes uint64 }
 
 type sStats struct {
 	fxStreamStats
-	internal int
-	sentRefs []uint32
-	sentLog  []s9sent
-	RTT      time.Duration
-	Lost     int64
-	Jitter   float64
-	Fraction float64
+	internal  int
+	sentRefs  []uint32
+	sentLog   []s9sent
+	NackCount uint32
+	RTT       time.Duration
+	Lost      int64
+	Jitter    float64
+	Fraction  float64
 }
 
 type s9sent struct {
